@@ -293,6 +293,24 @@ def add_guard_obligation(ctx: Ctx, rule: str):
                 isinstance(n.test.comparators[0], ast.Constant) and n.test.comparators[0].value in (0, 0.0)
             if always_raises:
                 guards.append(gid)
+    # what `duration == 0` means is pyannote's: a segment no longer than SEGMENT_PRECISION (1e-6 unless someone changes it) has duration 0.  The
+    # package itself must not move that threshold: done at import time it silently turns every shorter unit of every input into a rejected one
+    for m_ in M.modules.values():
+        for st_ in ast.walk(m_.tree):
+            tg_ = st_.targets if isinstance(st_, ast.Assign) else [st_.target] if isinstance(st_, (ast.AugAssign, ast.AnnAssign)) else []
+            hit = next((t for t in tg_ if isinstance(t, ast.Attribute) and t.attr == "SEGMENT_PRECISION"), None)
+            if hit is None and isinstance(st_, ast.Expr) and isinstance(st_.value, ast.Call) and isinstance(st_.value.func, ast.Attribute) and st_.value.func.attr == "set_precision":
+                hit = st_.value
+            if hit is None:
+                continue
+            at_import = any(st_ is x for top in m_.tree.body if not isinstance(top, (ast.FunctionDef, ast.AsyncFunctionDef, ast.ClassDef)) for x in ast.walk(top))
+            if at_import:
+                ctx.bad(rule, None, None, f"{m_.relpath}:{getattr(st_, 'lineno', '?')} `{norm(st_)}` runs when the package is imported: it moves pyannote's threshold for an empty segment, "
+                        f"so add()'s zero-length guard (and pyannote's own loaders) now reject every unit shorter than the new threshold - valid rows of an input "
+                        f"file are dropped or refused", construct="SEGMENT_PRECISION", key="guard-precision")
+            else:
+                ctx.undecided(rule, None, None, f"{m_.relpath}:{getattr(st_, 'lineno', '?')} `{norm(st_)}` changes pyannote's threshold for an empty segment from inside the package: "
+                              f"which units add() rejects then depends on whether that code has run (not a verdict)", construct="SEGMENT_PRECISION", key="guard-precision")
     fl = p.flow(f)
     writes = [m for m in fl.mutations if m.av.kind == "param" and m.av.name == sn]
     wnodes = {cfg.node_containing(m.node) for m in writes}
